@@ -8,15 +8,20 @@ LEVEL_TEXT = ("Proved over the model for all 25 paths, all base setups and all v
               "Snell-internal angle, poling period as magnitude with the derived sign); unknown path strings are rejected; a sweep has "
               "nx·ny elements in row-major order, element k = both setters applied to Steps2D.value k.")
 LEVEL_NOTE = ("Snell inversion and the poling sign are parameters (`Ext`), passed in from explicit public calls on correspondence lines. "
-              "Angle rows are stated for values in the canonical interval of the field. Model fidelity is checked, not proved.")
-OPS = {"sweep_pt", "sweep_order", "path_parse"}
-TOL = {"sweep_pt": ("ulp", 4), "sweep_order": ("ulp", 4)}
+              "Angle rows are stated for values in the canonical interval of the field. Model fidelity is checked, not proved. "
+              "sweep_snell ties the angle an external-angle path stores to the model of the Snell inversion (Beam.snellInternal over NM1D); "
+              "its inputs are the principal indices of the swept setup's crystal (CrystalType::get_indices), orientation, azimuth, polarization.")
+OPS = {"sweep_pt", "sweep_order", "path_parse", "sweep_snell"}
+TOL = {"sweep_pt": ("ulp", 4), "sweep_order": ("ulp", 4), "sweep_snell": ("rel", 1e-9, 1e-12)}
 DEFAULT_TOL = ("exact",)
 RULE = ("family sweep: 25 paths + 31 near-miss names + random one-edit mutants; every path × partner path × values across the field's range × "
         "4 fixed + seeded random base setups (poling off / auto / apodized, collinear / non-collinear) through SPDCIter 1×1 sweeps both "
         "orders; non-canonical values (angles beyond their interval, negative periods / external angles) on the correspondence side; "
         "sweep shapes 0×3 … 7×5; jsi_values against individually constructed setups; shapes with 63…1025 (thorough: …10000) points around the "
-        "block sizes 64/128/256/512/1024, 1×n, n×1, empty: order and every cell of jsi_values / jsi_values_normalized")
+        "block sizes 64/128/256/512/1024, 1×n, n×1, empty: order and every cell of jsi_values / jsi_values_normalized; "
+        "expression crystals (BBO formula, YVO4, quartz, positive uniaxial with dn/dT, two biaxial) × 5 phase-matching types as bases; both "
+        "external-angle paths 0…60° alone and after crystal angle / temperature / wavelength / azimuth setters: sin θe = n(θi)·sin θi through "
+        "Beam::refractive_index (1e-4°), the stored angle against the Snell model, jsi_values against setups built with a bisection Snell solve")
 RESIDUAL = "none beyond model fidelity; jsi_values are compared implementation against itself"
 
 
